@@ -62,6 +62,7 @@ class Contract:
         self.effect_fn = None       # callers apply this deterministic state update instead of havoc + ensures
         self.spec_facts = False     # assume the ensures also when the call occurs inside a specification
         self.predicate_ = None      # (ghost predicate name, [param names]): "this call returns normally"
+        self.measure_ = None        # termination measure of a recursive function (text over the parameters, an int >= 0)
 
     # fluent API ---------------------------------------------------------------------------------------------
     def params(self_, **kw):
@@ -110,6 +111,11 @@ class Contract:
     def no_raise(self):
         self.never_raises = True
         self.raises_allowed = ()
+        return self
+
+    def measure(self, text):
+        """recursive calls (used through this very contract) must decrease this non-negative integer"""
+        self.measure_ = text
         return self
 
     def loop(self, ordinal):
